@@ -9,6 +9,7 @@ algebraic identities are NOT decided.
 """
 from ..astq import AstDB
 from ..engines import e3_tables as e3
+from ..engines import e9_safety as e9
 
 LEVEL = "other"
 
@@ -18,11 +19,16 @@ def run(chk):
     chk.configs = cfgs
     chk.rule("T.symmetry", "T(Positive, wc, wc2) == T(Negative, -wc, -wc2); NonZero invariant under negation; T independent of own path "
              "type for Intersection / Union / Xor")
+    chk.rule("INT64.product", "no product is formed in a signed 64-bit integer type (integer scaling of the input up to 2^40 must not change "
+             "which branch a cross-product test takes)")
+    chk.rule("ADD.closing-vertex", "a closing vertex equal to the first one is dropped for closed paths (and only for those)")
     chk.rule("T.comparator", "LocMinSorter, IntersectListSort, HorzSegSorter: irreflexive, asymmetric, transitive, transitive incomparability")
     for cfg in cfgs:
         db = AstDB(cfg)
         e3.table_symmetry(db, chk, cfg)
         e3.comparators(db, chk, cfg)
+        e9.rule_int64_product(db, chk, cfg)
+        e3.closing_vertex_rule(db, chk, cfg)
     chk.floor("T.symmetry", 1700 * len(cfgs))
     chk.floor("T.comparator", 1600 * len(cfgs))
     chk.exhaustive = True
